@@ -127,6 +127,27 @@ pub fn c11(t: &dyn TypeOps, cx: &mut Cx) {
                 o => cx.violate(&format!("eps-prefix-{}", o.class()), json!({"value": vdesc(i, &want), "cut": k, "len": bytes.len(), "observed": o.describe()})),
             }
         }
+        // file-backed entry points that do not zero-extend: load_full and mmap
+        if vi < 2 {
+            let path = format!("{}/c11-{:016x}.bin", crate::checks3::scratch(), hash64(&[cx.type_id.as_bytes()]));
+            for k in 0..bytes.len() {
+                std::fs::write(&path, &bytes[..k]).unwrap();
+                for (loader, name) in [(0u8, "load_full"), (3u8, "mmap")] {
+                    cx.evals += 1;
+                    cx.transitions += 1;
+                    let r = t.load_history(loader, &path, 0, &[]);
+                    cx.outcome(&format!("{}-{}", name, r.class()));
+                    let ok = match &r {
+                        Out::Err(e) if loader == 0 => e == "ReadError",
+                        Out::Err(_) => true,
+                        Out::Panic(p) => loader == 3 && panic_class(p) == "bounds",
+                        Out::Ok(_) => false,
+                    };
+                    if !ok { cx.violate(&format!("{}-truncated-file-{}", name, r.class()), json!({"value": vdesc(i, &want), "cut": k, "len": bytes.len(), "observed": r.describe()})); }
+                }
+            }
+            let _ = std::fs::remove_file(&path);
+        }
         if vi == 0 { cx.sample(json!({"type": cx.type_id, "value": format!("{:?}", want), "cuts": bytes.len()})); }
     }
 }
